@@ -82,6 +82,8 @@ type Contract struct {
 	Decreases  string
 	LabelProps map[string][]string
 	CallCounts []CallCount
+	// LastResults: callees whose most recent result (index Res) is kept as a ghost
+	LastResults []LastResult
 	Captures   []*Clause // facts about captured variables, checked where the closure is created
 	DynPure    bool      // calls of function values are assumed not to touch modelled state
 	PerReturn  bool      // postconditions are checked at every return statement separately
@@ -96,9 +98,15 @@ type Contract struct {
 
 // CallCount declares a ghost counter: number of calls of Callee made by the
 // function under contract, per value of argument Arg (0-based, receiver first).
+type LastResult struct {
+	Callee string
+	Res    int
+}
+
 type CallCount struct {
 	Callee string
 	Arg    int
+	Iface  bool // the counted argument is an interface value
 }
 
 type SpecFunc struct {
@@ -165,7 +173,7 @@ var clauseKeywords = map[string]bool{
 	"loop": true, "invariant": true, "trusted": true, "spec": true, "pred": true, "owned": true,
 	"on": true, "inline": true, "maypanic": true, "nonblocking": true, "callsite": true, "sendsite": true,
 	"props": true, "nosweep": true, "assume": true, "iface": true, "lemma": true, "hyp": true, "concl": true,
-	"dispatch": true, "end": true, "fieldinv": true, "callcount": true, "captures": true, "dyncalls-pure": true, "immutable": true, "slicenorm": true, "opaque": true, "perreturn": true, "uselemma": true,
+	"dispatch": true, "end": true, "fieldinv": true, "callcount": true, "lastresult": true, "captures": true, "dyncalls-pure": true, "immutable": true, "slicenorm": true, "opaque": true, "perreturn": true, "uselemma": true,
 	"returnsite": true, "recvsite": true, "mapinv": true, "partial": true, "chaninv": true,
 }
 
@@ -451,13 +459,24 @@ func (db *ContractDB) parseContractFile(path, pkgPath string) {
 			}
 		case "callcount":
 			f := strings.Fields(it.text)
-			if cur == nil || len(f) != 2 || !strings.HasPrefix(f[1], "arg") {
-				db.Errors = append(db.Errors, fmt.Sprintf("%s:%d: callcount needs '<callee> argN'", path, it.line))
+			if cur == nil || len(f) < 2 || len(f) > 3 || !strings.HasPrefix(f[1], "arg") || (len(f) == 3 && f[2] != "iface") {
+				db.Errors = append(db.Errors, fmt.Sprintf("%s:%d: callcount needs '<callee> argN [iface]'", path, it.line))
 				continue
 			}
 			n := 0
 			fmt.Sscanf(f[1][3:], "%d", &n)
-			cur.CallCounts = append(cur.CallCounts, CallCount{Callee: f[0], Arg: n})
+			cur.CallCounts = append(cur.CallCounts, CallCount{Callee: f[0], Arg: n, Iface: len(f) == 3})
+		case "lastresult":
+			f := strings.Fields(it.text)
+			if cur == nil || len(f) < 1 || len(f) > 2 {
+				db.Errors = append(db.Errors, fmt.Sprintf("%s:%d: lastresult needs '<callee> [resultN]'", path, it.line))
+				continue
+			}
+			n := 0
+			if len(f) == 2 {
+				fmt.Sscanf(strings.TrimPrefix(f[1], "result"), "%d", &n)
+			}
+			cur.LastResults = append(cur.LastResults, LastResult{Callee: f[0], Res: n})
 		case "spec", "pred", "opaque":
 			kw, text := it.kw, it.text
 			opaque := false
